@@ -46,32 +46,73 @@ func (st *State) doCall(in *ssa.Call, b *ssa.BasicBlock, idx int) bool {
 	vc.runGhost(st, "before call", name, ord)
 	// inline candidate?
 	if !c.IsInvoke() {
-		if f, ok := c.Value.(*ssa.Function); ok {
-			origin := f
-			if o := f.Origin(); o != nil {
+		var target *ssa.Function
+		var inst *ssa.Function
+		var binds []Val
+		switch f := c.Value.(type) {
+		case *ssa.Function:
+			target, inst = f, f
+		case *ssa.MakeClosure:
+			target = f.Fn.(*ssa.Function)
+			inst = target
+			for _, bv := range f.Bindings {
+				binds = append(binds, st.value(bv))
+			}
+		default:
+			if fv, ok := fnv.(FuncV); ok {
+				target, inst, binds = fv.Fn, fv.Fn, fv.Bind
+			}
+		}
+		if target != nil {
+			origin := target
+			if o := target.Origin(); o != nil {
 				origin = o
 			}
 			key := funcKey(origin)
-			_, hasContract := vc.cs.Funcs[key]
-			if fc := vc.cs.Funcs[key]; fc != nil && fc.Inline {
-				hasContract = false
-			}
-			if !hasContract && !isPrimitive(f) && origin.Blocks != nil && vc.inModule(origin) {
+			fc := vc.cs.Funcs[key]
+			hasContract := fc != nil && !fc.Inline
+			if !hasContract && !isPrimitive(target) && origin.Blocks != nil && (vc.inModule(origin) || inlineStd[pkgPathOf(origin)]) {
 				if st.fr.depth >= maxInlineDepth {
 					fail("inline depth exceeded at call to %s (give it a contract)", key)
 				}
-				if hasLoop(origin) {
-					fail("callee %s has a loop and no contract", key)
+				if hasLoop(origin) && len(vc.loopClauses(key, 1, "loop-invariant")) == 0 {
+					fail("callee %s has a loop and neither a contract nor caller-provided invariants (loop %s#1: ...)", key, key)
 				}
 				vc.inlined[key] = true
+				vc.computeLoops(origin)
+				vc.computeOrdinals(origin)
+				// type parameters of the generic callee -> actual types
+				if origin != inst {
+					tas := inst.TypeArgs()
+					var tps []*types.TypeParam
+					collect := func(l *types.TypeParamList) {
+						if l == nil {
+							return
+						}
+						for i := 0; i < l.Len(); i++ {
+							tps = append(tps, l.At(i))
+						}
+					}
+					collect(origin.Signature.RecvTypeParams())
+					collect(origin.Signature.TypeParams())
+					for i, tp := range tps {
+						if i < len(tas) {
+							tpSubst[tp] = tas[i]
+						}
+					}
+				}
 				nf := &Frame{fn: origin, vals: map[ssa.Value]Val{}, locals: map[*localCell]Val{}, names: map[string]Val{}, parent: st.fr,
 					retBlk: b, retIdx: idx + 1, retInst: in, depth: st.fr.depth + 1, curLoopDec: map[int]Term{}}
 				for i, p := range origin.Params {
 					nf.vals[p] = args[i]
 					nf.names[p.Name()] = args[i]
 				}
-				if len(origin.FreeVars) > 0 {
-					fail("inlining closure %s", key)
+				if len(origin.FreeVars) != len(binds) {
+					fail("inlining closure %s: %d free variables, %d bindings", key, len(origin.FreeVars), len(binds))
+				}
+				for i, fvv := range origin.FreeVars {
+					nf.vals[fvv] = binds[i]
+					nf.names[fvv.Name()] = binds[i]
 				}
 				st.fr = nf
 				st.enter(origin.Blocks[0], nil)
@@ -83,6 +124,19 @@ func (st *State) doCall(in *ssa.Call, b *ssa.BasicBlock, idx int) bool {
 	st.bind(in, res)
 	vc.runGhost(st, "after call", name, ord)
 	return false
+}
+
+// inlineStd: standard-library packages whose real bodies are executed symbolically inside their callers.
+var inlineStd = map[string]bool{"slices": true}
+
+func pkgPathOf(f *ssa.Function) string {
+	if f.Pkg != nil {
+		return f.Pkg.Pkg.Path()
+	}
+	if f.Object() != nil && f.Object().Pkg() != nil {
+		return f.Object().Pkg().Path()
+	}
+	return ""
 }
 
 func hasLoop(f *ssa.Function) bool {
@@ -534,41 +588,42 @@ func (st *State) appendOp(c *ssa.CallCommon, args []Val, site ssa.Instruction) V
 	if !ok {
 		fail("append of %T", args[1])
 	}
-	// only the single-element form append(s, x) is supported: go/ssa passes a fresh 1-element slice
-	el := sv.Typ.Underlying().(*types.Slice).Elem()
+	if sv.Off.S != "0" {
+		fail("append to a slice with non-zero offset is outside the modelled subset")
+	}
+	el := sliceElem(sv.Typ)
 	n := add.Len
 	newLen := st.define("alen", tAdd(sv.Len, n))
 	st.ovfCheck(newLen, types.Typ[types.Int], fmt.Sprintf("append#%d", vc.ordinals[site]))
 	// outcome 1: in place (newLen <= cap); outcome 2: fresh backing array.
-	inPlace := tLe(newLen, sv.Cap)
+	inPlace := st.define("inplace", tLe(newLen, sv.Cap))
 	fresh := st.allocRef("arr")
 	arr := st.define("aarr", tIte(inPlace, sv.Arr, fresh))
-	off := st.define("aoff", tIte(inPlace, sv.Off, tInt(0)))
 	ncap := st.declare("acap", SInt)
 	st.assume(tAnd(tGe(ncap, newLen), tImp(inPlace, tEq(ncap, sv.Cap)), tLe(ncap, Term{"9223372036854775807", SInt})))
-	// contents: for each leaf, new array content
 	p := PtrV{Kind: "elem", Root: typeRepr(el), Base: arr, Idx: tInt(0), Elem: el}
 	for _, lf := range leavesOf(el, "") {
 		key, _ := st.leafSortKey(p, lf)
 		a := st.get(key)
-		oldInner := tSelect(a, sv.Arr)
+		oldInner := st.define("oldin", tSelect(a, sv.Arr))
 		addInner := tSelect(a, add.Arr)
 		ni := st.declare("ainner", arrSort(SInt, lf.sort))
-		// prefix preserved (relative to offsets)
-		st.addLine(fmt.Sprintf("(assert (forall ((i Int)) (! (=> (and (<= 0 i) (< i %s)) (= (select %s (+ %s i)) (select %s (+ %s i)))) :pattern ((select %s (+ %s i))))))",
-			sv.Len.S, ni.S, off.S, oldInner.S, sv.Off.S, ni.S, off.S))
+		// prefix preserved
+		st.addLine(fmt.Sprintf("(assert (forall ((i Int)) (! (=> (and (<= 0 i) (< i %s)) (= (select %s i) (select %s i))) :pattern ((select %s i)))))",
+			sv.Len.S, ni.S, oldInner.S, ni.S))
 		// in place: everything outside the appended window is unchanged
-		st.addLine(fmt.Sprintf("(assert (=> %s (forall ((i Int)) (! (=> (or (< i (+ %s %s)) (>= i (+ %s %s))) (= (select %s i) (select %s i))) :pattern ((select %s i))))))",
-			inPlace.S, sv.Off.S, sv.Len.S, sv.Off.S, newLen.S, ni.S, oldInner.S, ni.S))
+		st.addLine(fmt.Sprintf("(assert (=> %s (forall ((i Int)) (! (=> (or (< i %s) (>= i %s)) (= (select %s i) (select %s i))) :pattern ((select %s i))))))",
+			inPlace.S, sv.Len.S, newLen.S, ni.S, oldInner.S, ni.S))
 		// appended elements
 		if n.S == "1" {
-			st.assume(tEq(tSelect(ni, tAdd(off, sv.Len)), tSelect(addInner, add.Off)))
+			st.assume(tEq(tSelect(ni, sv.Len), tSelect(addInner, add.Off)))
 		} else {
-			st.addLine(fmt.Sprintf("(assert (forall ((i Int)) (! (=> (and (<= 0 i) (< i %s)) (= (select %s (+ %s %s i)) (select %s (+ %s i)))) :pattern ((select %s (+ %s i))))))",
-				n.S, ni.S, off.S, sv.Len.S, addInner.S, add.Off.S, addInner.S, add.Off.S))
+			st.addLine(fmt.Sprintf("(assert (forall ((i Int)) (! (=> (and (<= %s i) (< i %s)) (= (select %s i) (select %s (+ %s (- i %s))))) :pattern ((select %s i)))))",
+				sv.Len.S, newLen.S, ni.S, addInner.S, add.Off.S, sv.Len.S, ni.S))
 		}
 		st.set(key, tStore(a, arr, ni))
 	}
+	off := tInt(0)
 	return SliceV{arr, off, newLen, ncap, sv.Typ}
 }
 
@@ -608,7 +663,7 @@ func (vc *VC) instrMod(in ssa.Instruction, li *loopInfo, depth int) {
 		}
 	case *ssa.MakeSlice:
 		li.mod[allocKey] = true
-		el := x.Type().Underlying().(*types.Slice).Elem()
+		el := sliceElem(x.Type())
 		vc.typeMod(PtrV{Kind: "elem", Root: typeRepr(el)}, el, "", li)
 	case *ssa.UnOp:
 		if x.Op.String() == "<-" {
@@ -702,7 +757,7 @@ func (vc *VC) callMod(c *ssa.CallCommon, li *loopInfo, depth int) {
 	case *ssa.Builtin:
 		if f.Name() == "append" {
 			li.mod[allocKey] = true
-			el := c.Args[0].Type().Underlying().(*types.Slice).Elem()
+			el := sliceElem(c.Args[0].Type())
 			vc.typeMod(PtrV{Kind: "elem", Root: typeRepr(el)}, el, "", li)
 		}
 		if f.Name() == "close" {
